@@ -224,3 +224,534 @@ Proof.
   - intros [H1 H2]. constructor; [|exact H2]. intros j g Hj. apply (H1 j g Hj).
   - intros [H1 H2]. split; [|exact H2]. intros i g Hi. simpl. apply H1. exact Hi.
 Qed.
+
+(* ------------------------------------------------------------------ *)
+(** ** Part A.2: truth-table equivalence *)
+
+(** every literal of [ls] has the same value in [c] as its image under the
+    gate map in [c'], for EVERY assignment of the inputs *)
+Definition Equiv (c c' : circuit) (gm : list lit) (ls : list lit) : Prop :=
+  forall (a : nat -> bool) l, In l ls -> eval c a l = eval c' a (apply_gate_map gm l).
+
+Lemma eval_lit_ext : forall c a a',
+  (forall i, i < n_inputs c -> a i = a' i) ->
+  forall f l, eval_lit c a f l = eval_lit c a' f l.
+Proof.
+  intros c a a' H. induction f as [|f IH]; intros [s [ | i | g | ]]; simpl; try reflexivity.
+  - destruct (Nat.ltb i (n_inputs c)) eqn:E; [|reflexivity]. apply Nat.ltb_lt in E. rewrite (H i E). reflexivity.
+  - destruct (Nat.ltb i (n_inputs c)) eqn:E; [|reflexivity]. apply Nat.ltb_lt in E. rewrite (H i E). reflexivity.
+  - destruct (nth_error (gates c) g) as [gt|]; [|reflexivity].
+    rewrite (map_ext _ _ IH). reflexivity.
+Qed.
+
+Lemma eval_ext : forall c a a' l,
+  (forall i, i < n_inputs c -> a i = a' i) -> eval c a l = eval c a' l.
+Proof. intros. unfold eval. apply eval_lit_ext. assumption. Qed.
+
+Lemma assignments_complete : forall n (a : nat -> bool),
+  exists bs, In bs (assignments n) /\ forall i, i < n -> assign_of bs i = a i.
+Proof.
+  induction n as [|n IH]; intros a.
+  - exists []. split; [left; reflexivity | intros; lia].
+  - destruct (IH (fun i => a (S i))) as [bs [Hin Hbs]].
+    exists (a 0 :: bs). split.
+    + simpl. apply in_flat_map. exists bs. split; [exact Hin|]. destruct (a 0); simpl; auto.
+    + intros [|i] Hi; unfold assign_of; simpl; [reflexivity|]. apply Hbs. lia.
+Qed.
+
+Lemma opt_bool_eqb_eq : forall x y, opt_bool_eqb x y = true <-> x = y.
+Proof.
+  intros [[|]|] [[|]|]; simpl; split; intro H; try reflexivity; try discriminate; try congruence.
+Qed.
+
+(** The truth-table audit [equiv_b] decides [Equiv] (for circuits over the same
+    [n] inputs): the run-time comparison is not an approximation. *)
+Theorem equiv_b_spec : forall n c c' gm ls,
+  n_inputs c = n -> n_inputs c' = n ->
+  (equiv_b n c c' gm ls = true <-> Equiv c c' gm ls).
+Proof.
+  intros n c c' gm ls Hc Hc'. unfold equiv_b, Equiv. rewrite forallb_forall. split.
+  - intros H a l Hl.
+    destruct (assignments_complete n a) as [bs [Hin Hbs]].
+    specialize (H bs Hin). rewrite forallb_forall in H. specialize (H l Hl).
+    apply opt_bool_eqb_eq in H.
+    rewrite (eval_ext c a (assign_of bs)) by (intros i Hi; symmetry; apply Hbs; lia).
+    rewrite (eval_ext c' a (assign_of bs)) by (intros i Hi; symmetry; apply Hbs; lia).
+    exact H.
+  - intros H bs _. apply forallb_forall. intros l Hl. apply opt_bool_eqb_eq. apply H. exact Hl.
+Qed.
+
+(** every observed gate literal has a value in the old circuit *)
+Definition Defined (c : circuit) (ls : list lit) : Prop :=
+  forall (a : nat -> bool) l g, In l ls -> latom l = AGate g -> eval c a l <> None.
+
+Theorem defined_b_spec : forall n c ls,
+  n_inputs c = n -> (defined_b n c ls = true <-> Defined c ls).
+Proof.
+  intros n c ls Hc. unfold defined_b, Defined. rewrite forallb_forall. split.
+  - intros H a l g Hl Hg.
+    destruct (assignments_complete n a) as [bs [Hin Hbs]].
+    specialize (H bs Hin). rewrite forallb_forall in H. specialize (H l Hl). rewrite Hg in H.
+    rewrite (eval_ext c a (assign_of bs)) by (intros i Hi; symmetry; apply Hbs; lia).
+    destruct (eval c (assign_of bs) l); [discriminate | discriminate H].
+  - intros H bs _. apply forallb_forall. intros l Hl.
+    destruct (latom l) eqn:Hg; try reflexivity.
+    specialize (H (assign_of bs) l g Hl Hg). destruct (eval c (assign_of bs) l); [reflexivity | contradiction].
+Qed.
+
+(* ------------------------------------------------------------------ *)
+(** ** Part A.3: gate map consistency *)
+
+(** one entry per old gate; every entry is UNDEF or a literal of the new
+    circuit; no gate reachable from the roots is left UNDEF *)
+Record MapConsistent (c c' : circuit) (gm : list lit) (roots : list lit) : Prop := {
+  mc_len : length gm = num_gates c;
+  mc_entries : forall m, In m gm -> m = UNDEF \/ LitValid (n_inputs c') (num_gates c') m;
+  mc_reach : forall g, In g (reach c roots) ->
+               exists m, nth_error gm g = Some m /\ LitValid (n_inputs c') (num_gates c') m
+}.
+
+Theorem map_consistent_b_spec : forall c c' gm roots,
+  map_consistent_b c c' gm roots = true <-> MapConsistent c c' gm roots.
+Proof.
+  intros c c' gm roots. unfold map_consistent_b.
+  rewrite !andb_true_iff, Nat.eqb_eq, !forallb_forall. split.
+  - intros [[H1 H2] H3]. constructor; [exact H1 | |].
+    + intros m Hm. specialize (H2 m Hm). apply orb_true_iff in H2. destruct H2 as [H2|H2].
+      * left. apply lit_eqb_eq. exact H2.
+      * right. apply lit_valid_b_spec. exact H2.
+    + intros g Hg. specialize (H3 g Hg). destruct (nth_error gm g) as [m|]; [|discriminate].
+      exists m. split; [reflexivity | apply lit_valid_b_spec; exact H3].
+  - intros [H1 H2 H3]. repeat split; [exact H1 | |].
+    + intros m Hm. apply orb_true_iff. destruct (H2 m Hm) as [E|V].
+      * left. apply lit_eqb_eq. exact E.
+      * right. apply lit_valid_b_spec. exact V.
+    + intros g Hg. destruct (H3 g Hg) as [m [E V]]. rewrite E. apply lit_valid_b_spec. exact V.
+Qed.
+
+(* ------------------------------------------------------------------ *)
+(** ** Part B.1: the steps of [finish] preserve the value of the gate
+
+    The lemmas are stated for an arbitrary valuation [va] of the atoms with
+    [va AConst = false]; [lval va l] is the value of the literal [l]. *)
+
+Definition lval (va : atom -> bool) (l : lit) : bool := xorb (lneg l) (va (latom l)).
+
+Section Steps.
+Variable va : atom -> bool.
+Hypothesis va_const : va AConst = false.
+
+Lemma lval_FALSE : lval va FALSE = false.
+Proof. unfold lval. simpl. rewrite va_const. reflexivity. Qed.
+Lemma lval_TRUE : lval va TRUE = true.
+Proof. unfold lval. simpl. rewrite va_const. reflexivity. Qed.
+Lemma lval_negate : forall l, lval va (negate l) = negb (lval va l).
+Proof. intros [s a]. unfold lval. simpl. destruct s, (va a); reflexivity. Qed.
+Lemma lval_lxor : forall l b, lval va (lxor l b) = xorb b (lval va l).
+Proof. intros [s a] b. unfold lval. simpl. destruct s, b, (va a); reflexivity. Qed.
+Lemma lval_positive : forall l, lval va (positive l) = va (latom l).
+Proof. intros [s a]. unfold lval. simpl. destruct (va a); reflexivity. Qed.
+
+(** the literal [gate_map[i] ^ l.is_negative()] / [l] itself that the first pass looks at *)
+Definition in_range (gm : list lit) (l : lit) : Prop :=
+  forall g, latom l = AGate g -> g < length gm.
+
+Lemma apply_gate_map_in_range : forall gm l, in_range gm l ->
+  match latom l with
+  | AGate i => match nth_error gm i with Some m => Some (lxor m (lneg l)) | None => None end
+  | _ => Some l
+  end = Some (apply_gate_map gm l).
+Proof.
+  intros gm [s a] H. unfold apply_gate_map. simpl. destruct a; try reflexivity.
+  destruct (nth_error gm g) eqn:E; [reflexivity|].
+  apply nth_error_None in E. specialize (H g eq_refl). lia.
+Qed.
+
+(** *** constant folding of AND / OR *)
+
+(** the dominating value of the gate kind *)
+Definition absorb (k : gkind) : bool := match k with And => false | _ => true end.
+Definition dominator (k : gkind) : lit := match k with And => FALSE | _ => TRUE end.
+Definition identity (k : gkind) : lit := match k with And => TRUE | _ => FALSE end.
+
+Lemma lval_dominator : forall k, lval va (dominator k) = absorb k.
+Proof. destruct k; simpl; auto using lval_FALSE, lval_TRUE. Qed.
+Lemma lval_identity : forall k, lval va (identity k) = negb (absorb k).
+Proof. destruct k; simpl; auto using lval_FALSE, lval_TRUE. Qed.
+
+Lemma gate_fun_cons_andor : forall k b bs, k <> Xor ->
+  gate_fun k (b :: bs) = if Bool.eqb b (absorb k) then absorb k else gate_fun k bs.
+Proof. intros [ | | ] b bs H; try congruence; destruct b; reflexivity. Qed.
+
+Lemma gate_fun_nil_andor : forall k, k <> Xor -> gate_fun k [] = negb (absorb k).
+Proof. intros [ | | ] H; try congruence; reflexivity. Qed.
+
+Lemma map_andor_sem : forall k gm ins, k <> Xor ->
+  (forall l, In l ins -> in_range gm l) ->
+  match map_inputs_andor (identity k) (dominator k) gm ins with
+  | MConst d => d = dominator k /\
+                gate_fun k (map (lval va) (map (apply_gate_map gm) ins)) = absorb k
+  | MIns n ms => n = false /\
+                 gate_fun k (map (lval va) ms) = gate_fun k (map (lval va) (map (apply_gate_map gm) ins)) /\
+                 (forall m, In m ms -> m <> identity k /\ m <> dominator k /\
+                                       exists l, In l ins /\ m = apply_gate_map gm l)
+  | MCrash => False
+  end.
+Proof.
+  intros k gm ins Hk. induction ins as [|l r IH]; intros Hr.
+  - simpl. split; [reflexivity|]. split; [reflexivity|]. intros m [].
+  - simpl map_inputs_andor. rewrite (apply_gate_map_in_range gm l) by (apply Hr; left; reflexivity).
+    simpl map. rewrite (gate_fun_cons_andor k _ _ Hk).
+    destruct (lit_eqb (apply_gate_map gm l) (dominator k)) eqn:Ed.
+    + apply lit_eqb_eq in Ed. rewrite Ed, lval_dominator, eqb_reflx. split; reflexivity.
+    + apply lit_eqb_neq in Ed.
+      assert (IH' := IH (fun x Hx => Hr x (or_intror Hx))). clear IH.
+      destruct (map_inputs_andor (identity k) (dominator k) gm r) as [d|n ms|].
+      * destruct IH' as [Hd Hv]. split; [exact Hd|]. rewrite Hv. destruct (Bool.eqb _ _); reflexivity.
+      * destruct IH' as [Hn [Hv Hm]].
+        destruct (lit_eqb (apply_gate_map gm l) (identity k)) eqn:Ei.
+        -- apply lit_eqb_eq in Ei. rewrite Ei, lval_identity.
+           replace (Bool.eqb (negb (absorb k)) (absorb k)) with false by (destruct (absorb k); reflexivity).
+           split; [exact Hn|]. split; [exact Hv|].
+           intros m Hin. destruct (Hm m Hin) as [A [B [x [Hx E]]]].
+           split; [exact A|]. split; [exact B|].
+           exists x. split; [right; exact Hx | exact E].
+        -- apply lit_eqb_neq in Ei. split; [exact Hn|]. split.
+           ++ simpl map. rewrite (gate_fun_cons_andor k _ _ Hk), Hv. reflexivity.
+           ++ intros m [Hm0|Hin].
+              ** subst m. split; [exact Ei|]. split; [exact Ed|].
+                 exists l. split; [left; reflexivity | reflexivity].
+              ** destruct (Hm m Hin) as [A [B [x [Hx E]]]].
+                 split; [exact A|]. split; [exact B|].
+                 exists x. split; [right; exact Hx | exact E].
+      * exact IH'.
+Qed.
+
+(** *** polarity normalisation and constant folding of XOR *)
+
+Definition xorl (bs : list bool) : bool := fold_right xorb false bs.
+
+Lemma map_xor_sem : forall gm ins,
+  (forall l, In l ins -> in_range gm l) ->
+  match map_inputs_xor gm ins with
+  | MIns n ms => xorb n (xorl (map (lval va) ms)) = xorl (map (lval va) (map (apply_gate_map gm) ins)) /\
+                 (forall m, In m ms -> lneg m = false /\ latom m <> AConst /\
+                                       exists l, In l ins /\ latom m = latom (apply_gate_map gm l))
+  | _ => False
+  end.
+Proof.
+  intros gm. induction ins as [|l r IH]; intros Hr.
+  - simpl. split; [reflexivity | intros m []].
+  - simpl map_inputs_xor.
+    assert (Hl : in_range gm l) by (apply Hr; left; reflexivity).
+    assert (IH' := IH (fun x Hx => Hr x (or_intror Hx))). clear IH.
+    (* the pair (flip, l') in terms of the mapped literal *)
+    assert (Hml : match latom l with
+                  | AGate i => match nth_error gm i with
+                               | Some m => Some (xorb (lneg l) (lneg m), positive m)
+                               | None => None
+                               end
+                  | _ => Some (lneg l, positive l)
+                  end = Some (lneg (apply_gate_map gm l), positive (apply_gate_map gm l))).
+    { destruct l as [s a]. unfold apply_gate_map. simpl. destruct a; try reflexivity.
+      destruct (nth_error gm g) as [[t b]|] eqn:E.
+      - simpl. unfold positive. simpl. f_equal. f_equal. apply xorb_comm.
+      - apply nth_error_None in E. specialize (Hl g eq_refl). simpl in Hl. lia. }
+    rewrite Hml. clear Hml.
+    set (ml := apply_gate_map gm l) in *.
+    destruct (map_inputs_xor gm r) as [d|n ms|]; try exact IH'.
+    destruct IH' as [Hv Hm].
+    simpl map. unfold xorl in *. simpl fold_right. fold ml.
+    assert (Eml : lval va ml = xorb (lneg ml) (lval va (positive ml))).
+    { rewrite lval_positive. reflexivity. }
+    destruct (lit_eqb (positive ml) FALSE) eqn:Ef.
+    + apply lit_eqb_eq in Ef. split.
+      * rewrite Eml, Ef, lval_FALSE, <- Hv. destruct (lneg ml), n, (fold_right xorb false (map (lval va) ms)); reflexivity.
+      * intros m Hin. destruct (Hm m Hin) as [A [B [x [Hx E]]]].
+        split; [exact A|]. split; [exact B|].
+        exists x. split; [right; exact Hx | exact E].
+    + apply lit_eqb_neq in Ef. split.
+      * simpl map. simpl fold_right. rewrite Eml, <- Hv.
+        destruct (lneg ml), n, (lval va (positive ml)), (fold_right xorb false (map (lval va) ms)); reflexivity.
+      * intros m [Hm0|Hin].
+        -- subst m. split; [reflexivity|]. split.
+           ++ intro E. apply Ef. destruct ml as [s a]. unfold positive, FALSE in *. simpl in *. congruence.
+           ++ exists l. split; [left; reflexivity | reflexivity].
+        -- destruct (Hm m Hin) as [A [B [x [Hx E]]]].
+           split; [exact A|]. split; [exact B|].
+           exists x. split; [right; exact Hx | exact E].
+Qed.
+
+End Steps.
+
+(* ------------------------------------------------------------------ *)
+(** ** Part B.2: duplicate / complement elimination ([dedup]) *)
+
+Lemma remove_lit_In : forall l ls x, In x (remove_lit l ls) <-> In x ls /\ x <> l.
+Proof.
+  intros l. induction ls as [|y r IH]; intros x; simpl.
+  - tauto.
+  - destruct (lit_eqb l y) eqn:E.
+    + apply lit_eqb_eq in E. subst y. rewrite IH. split.
+      * intros [H1 H2]. auto.
+      * intros [[H1|H1] H2]; [congruence | auto].
+    + apply lit_eqb_neq in E. simpl. rewrite IH. split.
+      * intros [H|[H1 H2]]; [subst; split; auto | auto].
+      * intros [[H1|H1] H2]; auto.
+Qed.
+
+Lemma remove_lit_notin : forall l ls, ~ In l ls -> remove_lit l ls = ls.
+Proof.
+  intros l. induction ls as [|y r IH]; intros H; simpl; [reflexivity|].
+  destruct (lit_eqb l y) eqn:E.
+  - apply lit_eqb_eq in E. subst. exfalso. apply H. left. reflexivity.
+  - f_equal. apply IH. intro Hin. apply H. right. exact Hin.
+Qed.
+
+Lemma remove_lit_NoDup : forall l ls, NoDup ls -> NoDup (remove_lit l ls).
+Proof.
+  intros l. induction ls as [|y r IH]; intros H; simpl; [constructor|].
+  inversion H as [|? ? Hn Hd]. subst. destruct (lit_eqb l y).
+  - auto.
+  - constructor; [|auto]. intro Hin. apply remove_lit_In in Hin. tauto.
+Qed.
+
+Lemma retain_In : forall ls S x, In x (retain S ls) <-> In x ls /\ In x S.
+Proof.
+  induction ls as [|l r IH]; intros S x; simpl.
+  - tauto.
+  - destruct (mem l S) eqn:E.
+    + apply mem_In in E. simpl. rewrite IH, remove_lit_In. split.
+      * intros [H|[H1 [H2 H3]]]; [subst; auto | auto].
+      * intros [[H|H] H2].
+        -- left. exact H.
+        -- destruct (lit_eq_dec x l) as [Hx|Hx]; [left; congruence | right; auto].
+    + apply mem_false in E. rewrite IH. split.
+      * intros [H1 H2]. auto.
+      * intros [[H|H] H2]; [subst; contradiction | auto].
+Qed.
+
+Lemma retain_NoDup : forall ls S, NoDup (retain S ls).
+Proof.
+  induction ls as [|l r IH]; intros S; simpl; [constructor|].
+  destruct (mem l S).
+  - constructor; [|apply IH]. intro Hin. apply retain_In in Hin. destruct Hin as [_ Hin].
+    apply remove_lit_In in Hin. tauto.
+  - apply IH.
+Qed.
+
+Lemma negate_involutive : forall l, negate (negate l) = l.
+Proof. intros [s a]. unfold negate. simpl. rewrite negb_involutive. reflexivity. Qed.
+
+Lemma negate_neq : forall l, negate l <> l.
+Proof. intros [s a] H. unfold negate in H. simpl in H. inversion H. destruct s; discriminate. Qed.
+
+Lemma find_compl_true : forall ls S, find_compl S ls = true ->
+  exists x, In x (S ++ ls) /\ In (negate x) (S ++ ls).
+Proof.
+  induction ls as [|l r IH]; intros S H; simpl in H; [discriminate|].
+  destruct (mem (negate l) S) eqn:E.
+  - apply mem_In in E. exists l. split; apply in_or_app; [right; left; reflexivity | left; exact E].
+  - destruct (IH _ H) as [x [H1 H2]]. exists x.
+    assert (Hs : forall y, In y ((l :: S) ++ r) -> In y (S ++ l :: r)).
+    { intros y Hy. simpl in Hy. apply in_or_app. destruct Hy as [Hy|Hy]; [right; left; exact Hy|].
+      apply in_app_or in Hy. destruct Hy; [left | right; right]; assumption. }
+    split; apply Hs; assumption.
+Qed.
+
+Lemma find_compl_false : forall ls S, find_compl S ls = false ->
+  (forall x, In x ls -> ~ In (negate x) S) /\ (forall x, In x ls -> ~ In (negate x) ls).
+Proof.
+  induction ls as [|l r IH]; intros S H; simpl in H.
+  - split; intros x [].
+  - destruct (mem (negate l) S) eqn:E; [discriminate|]. apply mem_false in E.
+    destruct (IH _ H) as [H1 H2]. split.
+    + intros x [Hx|Hx]; [subst; exact E|]. intro Hin. apply (H1 x Hx). right. exact Hin.
+    + intros x [Hx|Hx] [Hn|Hn].
+      * subst. exact (negate_neq _ (eq_sym Hn)).
+      * subst x. apply (H1 (negate l) Hn). left. symmetry. apply negate_involutive.
+      * apply (H1 x Hx). left. exact Hn.
+      * exact (H2 x Hx Hn).
+Qed.
+
+Section DedupSem.
+Variable va : atom -> bool.
+
+Lemma gate_fun_andor_set : forall k (xs ys : list lit), k <> Xor ->
+  (forall x, In x xs <-> In x ys) ->
+  gate_fun k (map (lval va) xs) = gate_fun k (map (lval va) ys).
+Proof.
+  intros k xs ys Hk H. destruct k; [| |congruence]; simpl; apply eq_true_iff_eq.
+  - rewrite !forallb_forall. split; intros A b Hb; apply in_map_iff in Hb; destruct Hb as [x [E Hx]];
+      apply A; apply in_map_iff; exists x; (split; [exact E | apply H; exact Hx]).
+  - rewrite !existsb_exists. split; intros [b [Hb B]]; apply in_map_iff in Hb; destruct Hb as [x [E Hx]];
+      exists b; (split; [apply in_map_iff; exists x; split; [exact E | apply H; exact Hx] | exact B]).
+Qed.
+
+(** a complementary pair of inputs decides an AND / OR gate *)
+Lemma gate_fun_andor_compl : forall k (xs : list lit) x, k <> Xor ->
+  In x xs -> In (negate x) xs -> gate_fun k (map (lval va) xs) = absorb k.
+Proof.
+  intros k xs x Hk H1 H2.
+  assert (Hv : exists y, In y xs /\ lval va y = absorb k).
+  { destruct (Bool.eqb (lval va x) (absorb k)) eqn:E.
+    - apply eqb_prop in E. exists x. auto.
+    - exists (negate x). split; [exact H2|]. rewrite lval_negate.
+      destruct (lval va x), (absorb k); simpl in *; congruence. }
+  destruct Hv as [y [Hy Ey]]. destruct k; [| |congruence]; simpl in *.
+  - destruct (forallb (fun b => b) (map (lval va) xs)) eqn:F; [|reflexivity].
+    rewrite forallb_forall in F. rewrite <- Ey. symmetry. apply F. apply in_map. exact Hy.
+  - apply existsb_exists. exists (lval va y). split; [apply in_map; exact Hy | exact Ey].
+Qed.
+
+Definition xs (S : list lit) : bool := xorl (map (lval va) S).
+
+Lemma xs_remove : forall l S, NoDup S -> In l S -> xs (remove_lit l S) = xorb (lval va l) (xs S).
+Proof.
+  intros l. induction S as [|y r IH]; intros Hd Hin; [destruct Hin|].
+  inversion Hd as [|? ? Hn Hd']. subst. simpl. destruct (lit_eqb l y) eqn:E.
+  - apply lit_eqb_eq in E. subst y. rewrite (remove_lit_notin l r Hn).
+    unfold xs, xorl. simpl. destruct (lval va l), (fold_right xorb false (map (lval va) r)); reflexivity.
+  - apply lit_eqb_neq in E. destruct Hin as [Hin|Hin]; [congruence|].
+    unfold xs, xorl in *. simpl. rewrite (IH Hd' Hin).
+    destruct (lval va l), (lval va y), (fold_right xorb false (map (lval va) r)); reflexivity.
+Qed.
+
+Lemma toggle_NoDup : forall S l, NoDup S -> NoDup (toggle S l).
+Proof.
+  intros S l H. unfold toggle. destruct (mem l S) eqn:E.
+  - apply remove_lit_NoDup. exact H.
+  - apply mem_false in E. constructor; assumption.
+Qed.
+
+Lemma toggle_xs : forall S l, NoDup S -> xs (toggle S l) = xorb (lval va l) (xs S).
+Proof.
+  intros S l H. unfold toggle. destruct (mem l S) eqn:E.
+  - apply mem_In in E. apply xs_remove; assumption.
+  - reflexivity.
+Qed.
+
+Lemma toggle_In : forall S l x, In x (toggle S l) -> In x S \/ x = l.
+Proof.
+  intros S l x. unfold toggle. destruct (mem l S).
+  - intro H. apply remove_lit_In in H. tauto.
+  - intros [H|H]; auto.
+Qed.
+
+Lemma fold_toggle : forall ls S, NoDup S ->
+  NoDup (fold_left toggle ls S) /\
+  xs (fold_left toggle ls S) = xorb (xorl (map (lval va) ls)) (xs S) /\
+  (forall x, In x (fold_left toggle ls S) -> In x S \/ In x ls).
+Proof.
+  induction ls as [|l r IH]; intros S H; simpl.
+  - split; [exact H|]. split; [unfold xorl; simpl; destruct (xs S); reflexivity | auto].
+  - destruct (IH (toggle S l) (toggle_NoDup S l H)) as [A [B C]]. split; [exact A|]. split.
+    + rewrite B, toggle_xs by exact H. unfold xorl. simpl.
+      destruct (lval va l), (fold_right xorb false (map (lval va) r)), (xs S); reflexivity.
+    + intros x Hx. destruct (C x Hx) as [Hx'|Hx']; [|auto].
+      apply toggle_In in Hx'. destruct Hx'; auto.
+Qed.
+
+Lemma retain_xs : forall ls S, NoDup S -> (forall x, In x S -> In x ls) ->
+  xorl (map (lval va) (retain S ls)) = xs S.
+Proof.
+  induction ls as [|l r IH]; intros S Hd Hsub; simpl.
+  - destruct S as [|y S]; [reflexivity|]. destruct (Hsub y (or_introl eq_refl)).
+  - destruct (mem l S) eqn:E.
+    + apply mem_In in E. simpl. unfold xorl in *. simpl. rewrite IH.
+      * rewrite xs_remove by assumption. destruct (lval va l), (xs S); reflexivity.
+      * apply remove_lit_NoDup. exact Hd.
+      * intros x Hx. apply remove_lit_In in Hx. destruct Hx as [Hx Hne].
+        destruct (Hsub x Hx) as [Hl|Hr]; [congruence | exact Hr].
+    + apply mem_false in E. apply IH; [exact Hd|].
+      intros x Hx. destruct (Hsub x Hx) as [Hl|Hr]; [subst; contradiction | exact Hr].
+Qed.
+
+(** [dedup] preserves the value of the gate; a complement pair makes an AND /
+    OR gate constant *)
+Theorem dedup_sem : forall k ins,
+  match dedup k ins with
+  | Some ins' => gate_fun k (map (lval va) ins') = gate_fun k (map (lval va) ins)
+  | None => k <> Xor /\ gate_fun k (map (lval va) ins) = absorb k
+  end.
+Proof.
+  intros k ins. unfold dedup. destruct (needs_dedup ins); [|reflexivity].
+  destruct k.
+  - destruct (find_compl [] ins) eqn:E.
+    + split; [congruence|]. destruct (find_compl_true _ _ E) as [x [H1 H2]]. simpl in *.
+      eapply gate_fun_andor_compl; [congruence | exact H1 | exact H2].
+    + apply gate_fun_andor_set; [congruence|]. intro x. rewrite retain_In. tauto.
+  - destruct (find_compl [] ins) eqn:E.
+    + split; [congruence|]. destruct (find_compl_true _ _ E) as [x [H1 H2]]. simpl in *.
+      eapply gate_fun_andor_compl; [congruence | exact H1 | exact H2].
+    + apply gate_fun_andor_set; [congruence|]. intro x. rewrite retain_In. tauto.
+  - destruct (fold_toggle ins [] (NoDup_nil _)) as [A [B C]].
+    simpl. change (fold_right xorb false) with xorl. rewrite retain_xs.
+    + rewrite B. unfold xs, xorl. simpl. apply xorb_false_r.
+    + exact A.
+    + intros x Hx. destruct (C x Hx) as [[]|H]. exact H.
+Qed.
+
+End DedupSem.
+
+(** structural facts about the result of [dedup] *)
+
+Lemma NoDup_atoms_no_compl : forall ls, NoDup ls ->
+  (forall x, In x ls -> ~ In (negate x) ls) -> NoDup (map latom ls).
+Proof.
+  induction ls as [|l r IH]; intros Hd Hc; simpl; [constructor|].
+  inversion Hd as [|? ? Hn Hd']. subst. constructor.
+  - intro Hin. apply in_map_iff in Hin. destruct Hin as [y [Ey Hy]].
+    destruct l as [s a], y as [t b]. simpl in Ey. subst b.
+    destruct (Bool.bool_dec s t) as [E|E].
+    + subst. contradiction.
+    + apply (Hc (L s a) (or_introl eq_refl)). right. unfold negate. simpl.
+      replace (negb s) with t by (destruct s, t; simpl; congruence). exact Hy.
+  - apply IH; [exact Hd'|]. intros x Hx Hn'. apply (Hc x (or_intror Hx)). right. exact Hn'.
+Qed.
+
+Lemma NoDup_atoms_positive : forall ls, NoDup ls ->
+  (forall x, In x ls -> lneg x = false) -> NoDup (map latom ls).
+Proof.
+  induction ls as [|l r IH]; intros Hd Hp; simpl; [constructor|].
+  inversion Hd as [|? ? Hn Hd']. subst. constructor.
+  - intro Hin. apply in_map_iff in Hin. destruct Hin as [y [Ey Hy]].
+    assert (y = l).
+    { destruct l as [s a], y as [t b]. simpl in Ey. subst b.
+      pose proof (Hp (L s a) (or_introl eq_refl)) as P1. pose proof (Hp (L t a) (or_intror Hy)) as P2.
+      simpl in *. congruence. }
+    subst. contradiction.
+  - apply IH; [exact Hd'|]. intros x Hx. apply Hp. right. exact Hx.
+Qed.
+
+Lemma needs_dedup_false : forall ins, needs_dedup ins = false -> NoDup (map latom ins).
+Proof.
+  intros [|x [|y [|z r]]] H; simpl in *; try discriminate.
+  - constructor.
+  - constructor; [intros [] | constructor].
+  - constructor; [|constructor; [intros [] | constructor]].
+    intros [E|[]]. rewrite <- E, atom_eqb_refl in H. discriminate.
+Qed.
+
+Lemma dedup_struct : forall k ins ins', dedup k ins = Some ins' ->
+  (k = Xor -> forall x, In x ins -> lneg x = false) ->
+  (forall x, In x ins' -> In x ins) /\ NoDup (map latom ins').
+Proof.
+  intros k ins ins' H Hpos. unfold dedup in H. destruct (needs_dedup ins) eqn:Nd.
+  - destruct k.
+    + destruct (find_compl [] ins) eqn:E; [discriminate|]. inversion H. subst. clear H.
+      destruct (find_compl_false _ _ E) as [_ Hc]. split.
+      * intros x Hx. apply retain_In in Hx. tauto.
+      * apply NoDup_atoms_no_compl; [apply retain_NoDup|].
+        intros x Hx Hn. apply retain_In in Hx. apply retain_In in Hn. apply (Hc x); tauto.
+    + destruct (find_compl [] ins) eqn:E; [discriminate|]. inversion H. subst. clear H.
+      destruct (find_compl_false _ _ E) as [_ Hc]. split.
+      * intros x Hx. apply retain_In in Hx. tauto.
+      * apply NoDup_atoms_no_compl; [apply retain_NoDup|].
+        intros x Hx Hn. apply retain_In in Hx. apply retain_In in Hn. apply (Hc x); tauto.
+    + inversion H. subst. clear H. split.
+      * intros x Hx. apply retain_In in Hx. tauto.
+      * apply NoDup_atoms_positive; [apply retain_NoDup|].
+        intros x Hx. apply retain_In in Hx. apply Hpos; tauto.
+  - inversion H. subst. split; [auto | apply needs_dedup_false; exact Nd].
+Qed.
